@@ -96,6 +96,17 @@ Proof.
     rewrite app_assoc. reflexivity.
 Qed.
 
+Lemma bindl_ext {A B} (l : list A) (f g : A -> res (list B)) :
+  (forall a, f a = g a) -> bindl l f = bindl l g.
+Proof. intros H. induction l as [|a l IH]; simpl; [reflexivity|]. rewrite H, IH. reflexivity. Qed.
+
+Lemma bindr_ext {A B} (r : res (list A)) (f g : A -> res (list B)) :
+  (forall a, f a = g a) -> bindr r f = bindr r g.
+Proof. intros H. destruct r; simpl; try reflexivity. apply bindl_ext, H. Qed.
+
+Lemma bindl_single {A B} (a : A) (k : A -> res (list B)) : bindl [a] k = k a.
+Proof. simpl. destruct (k a); simpl; [rewrite app_nil_r|..]; reflexivity. Qed.
+
 (* ------------------------------------------------------------------------------------------ *)
 (* 1. one fuel step of [sem], and monotonicity in the fuel                                      *)
 (* ------------------------------------------------------------------------------------------ *)
@@ -930,39 +941,199 @@ Combined Scheme ends_to_mutind from ends_to_min, ends_to_list_min, ends_to_opt_m
 
 Section Ending.
 Variable e : env.
+Notation evals := (rw_evals e).
 
-Definition opt_heq (n n' : option node) : Prop := opt_hrefines e n n' /\ opt_hrefines e n' n.
+(* --- loops in the walk --- *)
 
-(* R2: every step of the ending-backtracking walk (Model/Rewrite.ends_to) preserves the first result *)
-Theorem eliminate_ending_sound_all :
-  (forall t t', ends_to e t t' -> rw_heq e t t') /\
-  (forall l l', ends_to_list e l l' -> Forall2 (rw_hrefines e) l l' /\ Forall2 (rw_hrefines e) l' l) /\
-  (forall n n', ends_to_opt e n n' -> opt_heq n n').
+(* same-fuel "equal first result" on results *)
+Definition hle_f {A} (r r' : res (list A)) : Prop :=
+  forall l, r = Ok l -> exists l', r' = Ok l' /\ hd_list l = hd_list l'.
+
+Lemma hle_f_refl {A} (r : res (list A)) : hle_f r r.
+Proof. intros l H. exists l. split; [exact H | reflexivity]. Qed.
+
+Lemma hle_f_bindl {A B} (l : list A) (f g : A -> res (list B)) :
+  (forall a, hle_f (f a) (g a)) -> hle_f (bindl l f) (bindl l g).
 Proof.
-  apply (ends_to_mutind e (fun t t' => rw_heq e t t')
-           (fun l l' => Forall2 (rw_hrefines e) l l' /\ Forall2 (rw_hrefines e) l' l)
-           (fun n n' => opt_heq n n')).
-  - intros t. apply rw_heq_refl.
-  - intros k l o c m n H. apply rw_heqs_heq, make_loop_atomic_heqs, H.
-  - intros t t' _ [H1 H2]. split; apply atomic_tail; assumption.
-  - intros t t' _ [H1 H2]. destruct (atomic_heq e t') as [A1 A2].
-    split; eapply rw_hrefines_trans; eassumption.
-  - intros o t t' _ [H1 H2]. split; apply poslook_tail; assumption.
-  - intros o t t' _ [H1 H2]. split; apply neglook_tail; assumption.
-  - intros o g t t' _ [H1 H2]. split; apply capture_tail; assumption.
-  - intros t t' _ [H1 H2]. split; apply group_tail; assumption.
-  - intros o pre t t' _ [H1 H2]. split; apply concat_last_tail; assumption.
-  - intros o l l' _ [H1 H2]. split; apply alt_all_tail; assumption.
-  - intros o g y y' n n' _ [H1 H2] _ [H3 H4]. split; apply backref_cond_tail; assumption.
-  - intros o c c' y y' n n' _ [H1 H2] _ [H3 H4] _ [H5 H6]. split; apply expr_cond_tail; assumption.
-  - split; constructor.
-  - intros t t' l l' _ [H1 H2] _ [H3 H4]. split; constructor; assumption.
-  - split; exact I.
-  - intros t t' _ [H1 H2]. split; assumption.
+  intros H. induction l as [|a l IH]; [apply hle_f_refl|]. intros z Hz. cbn [bindl] in *.
+  apply rw_bind_ok in Hz as (x & Hx & Hz). apply rw_bind_ok in Hz as (y & Hy & Hz). inversion Hz; subst.
+  destruct (H a _ Hx) as (x' & Hx' & Ex). destruct (IH _ Hy) as (y' & Hy' & Ey).
+  exists (x' ++ y'). rewrite Hx', Hy'. split; [reflexivity | apply hd_list_app_congr; assumption].
 Qed.
 
-Theorem eliminate_ending_sound t t' : ends_to e t t' -> rw_heq e t t'.
+Lemma hle_f_bindr {A B} (r : res (list A)) (f g : A -> res (list B)) :
+  (forall a, hle_f (f a) (g a)) -> hle_f (bindr r f) (bindr r g).
+Proof. intros H. destruct r; try (intros l Hl; discriminate). apply hle_f_bindl, H. Qed.
+
+(* a lazy loop in atomic position never iterates beyond its minimum (tree.go:811-812): the first result
+   is the one with exactly m iterations.  One-directional: the original may run out of fuel (or, on
+   ill-formed trees, not terminate) exploring further iterations the rewritten loop does not have. *)
+Lemma iter_lazy_min (body : st -> res (list st)) limit : 0 <= limit ->
+  forall f s mark count, count <= 0 ->
+  hle_f (iter f body true limit s mark count) (iter f body true 0 s mark count).
+Proof.
+  intros Hl. induction f as [|f IH]; intros s mark count Hc; [intros l H; discriminate|].
+  cbn [iter]. destruct (count <? 0) eqn:E.
+  - apply hle_f_bindr. intros a. apply IH. lia.
+  - assert (count = 0) as -> by lia. change (0 <? 0) with false. cbn [andb].
+    intros l H. unfold appr in H. cbn [bind] in H. apply rw_bind_ok in H as (y & _ & H). inversion H; subst.
+    exists [s]. split; reflexivity.
+Qed.
+
+Theorem lazyloop_min_tail o m n r : 0 <= m <= n -> m < INF ->
+  rw_hrefines e (NLoop true o m n r) (NLoop true o m m r).
+Proof.
+  intros Hmn Hinf s z [[|f] H]; [discriminate|]. rewrite sem_S in H. cbn [sem_step] in H.
+  assert (Hlim : 0 <= (if n =? INF then INF else n - m)) by (destruct (n =? INF); unfold INF in *; lia).
+  assert (Hgoal : hle_f (sem e (S f) (NLoop true o m n r) s) (sem e (S f) (NLoop true o m m r) s)).
+  { rewrite !sem_S. cbn [sem_step]. assert (m =? INF = false) as -> by lia. replace (m - m) with 0 by lia.
+    destruct (m =? 0) eqn:E0.
+    - apply iter_lazy_min; [exact Hlim | lia].
+    - apply hle_f_bindr. intros a. apply iter_lazy_min; [exact Hlim | lia]. }
+  rewrite sem_S in Hgoal. cbn [sem_step] in Hgoal. destruct (Hgoal _ H) as (z' & Hz' & E).
+  exists z'. split; [exists (S f); exact Hz' | exact E].
+Qed.
+
+(* a loop {1,1} is its body *)
+Lemma evals_loop_11 lazy o r s z : evals (NLoop lazy o 1 1 r) s z <-> evals r s z.
+Proof.
+  assert (Hit : forall f s' mark, iter (S f) (sem e (S f) r) lazy 0 s' mark 0 = Ok [s']).
+  { intros f s' mark. cbn [iter]. destruct lazy; reflexivity. }
+  split.
+  - intros [[|[|f]] H]; try discriminate; rewrite sem_S in H; cbn [sem_step] in H.
+    + change (1 =? 0) with false in H. change (1 =? INF) with false in H. cbv iota in H. change (1 - 1) with 0 in H.
+      unfold bindr in H. apply rw_bind_ok in H as (l & Hl & H). exists (S f).
+      rewrite (bindl_ext _ _ (fun a => Ok [a])) in H by (intros a; apply Hit).
+      rewrite bindl_pure in H. inversion H; subst. rewrite Hl. f_equal. clear. induction l; simpl; congruence.
+  - intros [f H]. apply (rw_sem_mono e f (S f)) in H; [|lia]. exists (S (S f)). rewrite sem_S. cbn [sem_step].
+    change (1 =? 0) with false. change (1 =? INF) with false. cbv iota. change (1 - 1) with 0.
+    rewrite H. unfold bindr. cbn [bind].
+    rewrite (bindl_ext _ _ (fun a => Ok [a])) by (intros a; apply Hit).
+    rewrite bindl_pure. f_equal. clear. induction z; simpl; congruence.
+Qed.
+
+Lemma iter_S f (body : st -> res (list st)) lazy limit s mark count :
+  iter (S f) body lazy limit s mark count =
+  let again := bindr (body s) (fun s' => iter f body lazy limit s' (pos s) (count + 1)) in
+  if lazy then
+    if count <? 0 then again
+    else appr (Ok [s]) (if (count <? limit) && negb (pos s =? mark) then again else Ok [])
+  else
+    if (limit <=? count) || ((pos s =? mark) && (0 <=? count)) then Ok [s]
+    else appr again (Ok (if 0 <=? count then [s] else [])).
+Proof. reflexivity. Qed.
+
+Lemma iter_at_limit f (body : st -> res (list st)) lazy lim a mark x :
+  0 <= lim -> iter f body lazy lim a mark lim = Ok x -> x = [a].
+Proof.
+  intros Hl H. destruct f as [|f]; [discriminate|]. cbn [iter] in H.
+  assert (lim <? 0 = false) as E1 by lia. assert (lim <? lim = false) as E2 by lia. assert (lim <=? lim = true) as E3 by lia.
+  destruct lazy; rewrite ?E1, ?E2, ?E3 in H; cbn in H; congruence.
+Qed.
+
+Lemma bindl_singletons {A} (l : list A) (K : A -> res (list A)) y :
+  (forall a x, K a = Ok x -> x = [a]) -> bindl l K = Ok y -> y = l.
+Proof.
+  intros HK. revert y. induction l as [|a l IH]; intros y H; cbn [bindl] in H; [congruence|].
+  apply rw_bind_ok in H as (x & Hx & H). apply rw_bind_ok in H as (y' & Hy' & H). inversion H; subst.
+  rewrite (HK _ _ Hx), (IH _ Hy'). reflexivity.
+Qed.
+
+(* an optional group {0,1}: the body's results and "skip", in the order the flavour dictates *)
+Lemma evals_loop_01 lazy o r s z :
+  evals (NLoop lazy o 0 1 r) s z <->
+  if pos s =? -1 then z = [s]
+  else exists l, evals r s l /\ z = if lazy then s :: l else l ++ [s].
+Proof.
+  assert (Hit : forall f (body : st -> res (list st)) s' mark, iter (S f) body lazy 1 s' mark 1 = Ok [s']).
+  { intros f body s' mark. cbn [iter]. destruct lazy; reflexivity. }
+  assert (Hflat : forall l : list st, flat_map (fun a => [a]) l = l) by (induction l; simpl; congruence).
+  split.
+  - intros [[|[|f]] H]; try discriminate; rewrite sem_S in H; cbn [sem_step] in H;
+      change (0 =? 0) with true in H; change (1 =? INF) with false in H; cbv iota in H; change (1 - 0) with 1 in H.
+    + cbn [iter] in H. destruct (pos s =? -1) eqn:Ep.
+      * destruct lazy; cbn in H; inversion H; reflexivity.
+      * destruct lazy.
+        -- change (0 <? 0) with false in H. change ((0 <? 1) && negb false) with true in H. cbv iota in H.
+           unfold appr in H. cbn [bind] in H. apply rw_bind_ok in H as (y & Hy & H). inversion H; subst.
+           unfold bindr in Hy. apply rw_bind_ok in Hy as (l & Hl & Hy).
+           apply bindl_singletons in Hy; [|intros a x Hx; eapply (iter_at_limit _ _ _ 1); [lia | exact Hx]].
+           subst y. exists l. split; [exists (S f); exact Hl | reflexivity].
+        -- change ((1 <=? 0) || false && (0 <=? 0)) with false in H. change (0 <=? 0) with true in H. cbv iota in H.
+           unfold appr in H. apply rw_bind_ok in H as (y & Hy & H). cbn [bind] in H. inversion H; subst.
+           unfold bindr in Hy. apply rw_bind_ok in Hy as (l & Hl & Hy).
+           apply bindl_singletons in Hy; [|intros a x Hx; eapply (iter_at_limit _ _ _ 1); [lia | exact Hx]].
+           subst y. exists l. split; [exists (S f); exact Hl | reflexivity].
+  - destruct (pos s =? -1) eqn:Ep.
+    + intros ->. exists 2%nat. rewrite sem_S. cbn [sem_step]. change (0 =? 0) with true. cbv iota. cbn [iter].
+      destruct lazy.
+      * change (0 <? 0) with false. cbv iota. rewrite Ep. rewrite andb_false_r. reflexivity.
+      * rewrite Ep. change (0 <=? 0) with true. rewrite orb_true_r. reflexivity.
+    + intros (l & [f Hl] & ->). apply (rw_sem_mono e f (S f)) in Hl; [|lia].
+      exists (S (S (S f))). rewrite sem_S. cbn [sem_step]. change (0 =? 0) with true. change (1 =? INF) with false. cbv iota.
+      change (1 - 0) with 1. rewrite iter_S. cbv zeta. apply (rw_sem_mono e (S f) (S (S f))) in Hl; [|lia].
+      destruct lazy.
+      * change (0 <? 0) with false. change (0 <? 1) with true. cbv iota. rewrite Ep. cbn [andb negb].
+        rewrite Hl. unfold bindr. cbn [bind].
+        rewrite (bindl_ext _ _ (fun a => Ok [a])) by (intros a; apply Hit). rewrite bindl_pure, Hflat. reflexivity.
+      * change (1 <=? 0) with false. rewrite Ep. cbn [orb andb]. cbv iota.
+        rewrite Hl. unfold bindr. cbn [bind].
+        rewrite (bindl_ext _ _ (fun a => Ok [a])) by (intros a; apply Hit). rewrite bindl_pure, Hflat. reflexivity.
+Qed.
+
+(* the body of a loop with maximum 1 is at the end when the loop is (tree.go:815-821) *)
+Theorem loop_one_tail lazy o m r r' : m = 0 \/ m = 1 -> rw_hrefines e r r' ->
+  rw_hrefines e (NLoop lazy o m 1 r) (NLoop lazy o m 1 r').
+Proof.
+  intros [-> | ->] H s z Hz.
+  - apply evals_loop_01 in Hz. destruct (pos s =? -1) eqn:Ep.
+    + subst z. exists [s]. split; [apply evals_loop_01; rewrite Ep; reflexivity | reflexivity].
+    + destruct Hz as (l & Hl & ->). destruct (H _ _ Hl) as (l' & Hl' & E).
+      exists (if lazy then s :: l' else l' ++ [s]). split; [apply evals_loop_01; rewrite Ep; eauto|].
+      destruct lazy; [reflexivity | apply hd_list_app_congr; [exact E | reflexivity]].
+  - apply (proj1 (evals_loop_11 _ _ _ _ _)) in Hz. destruct (H _ _ Hz) as (l' & Hl' & E).
+    exists l'. split; [apply (proj2 (evals_loop_11 _ _ _ _ _)); exact Hl' | exact E].
+Qed.
+
+(* R2: every step of the ending-backtracking walk (Model/Rewrite.ends_to) preserves the first result:
+   whenever the original tree evaluates, the rewritten one does and the first results are equal *)
+Theorem eliminate_ending_sound_all :
+  (forall t t', ends_to e t t' -> rw_hrefines e t t') /\
+  (forall l l', ends_to_list e l l' -> Forall2 (rw_hrefines e) l l') /\
+  (forall n n', ends_to_opt e n n' -> opt_hrefines e n n').
+Proof.
+  apply (ends_to_mutind e (fun t t' => rw_hrefines e t t')
+           (fun l l' => Forall2 (rw_hrefines e) l l')
+           (fun n n' => opt_hrefines e n n')).
+  - intros t. apply rw_hrefines_refl.
+  - intros k l o c m n H. apply rw_heqs_hrefines, make_loop_atomic_heqs, H.
+  - intros t t' _ H. apply atomic_tail, H.
+  - intros t t' _ H. eapply rw_hrefines_trans; [exact H | apply (proj2 (atomic_heq e t'))].
+  - intros o t t' _ H. apply poslook_tail, H.
+  - intros o t t' _ H. apply neglook_tail, H.
+  - intros o g t t' _ H. apply capture_tail, H.
+  - intros t t' _ H. apply group_tail, H.
+  - intros o pre t t' _ H. apply concat_last_tail, H.
+  - intros o l l' _ H. apply alt_all_tail, H.
+  - intros o g y y' n n' _ H1 _ H2. apply backref_cond_tail; assumption.
+  - intros o c c' y y' n n' _ H1 _ H2 _ H3. apply expr_cond_tail; assumption.
+  - intros o m n r Hmn Hinf. apply lazyloop_min_tail; assumption.
+  - intros lazy o m r r' Hm _ H. apply loop_one_tail; assumption.
+  - intros a b c _ H1 _ H2. eapply rw_hrefines_trans; eassumption.
+  - constructor.
+  - intros t t' l l' _ H1 _ H2. constructor; assumption.
+  - exact I.
+  - intros t t' _ H. exact H.
+Qed.
+
+Theorem eliminate_ending_sound t t' : ends_to e t t' -> rw_hrefines e t t'.
 Proof. apply eliminate_ending_sound_all. Qed.
+
+(* consequence for the search: the match found on the rewritten tree is the one found on the original *)
+Corollary eliminate_ending_find root root' rtl : ends_to e root root' ->
+  forall f start prevlen r, find e f root rtl start prevlen = Ok r ->
+  exists f', find e f' root' rtl start prevlen = Ok r.
+Proof. intros H. apply find_observes_head, eliminate_ending_sound, H. Qed.
 
 End Ending.
 
@@ -975,17 +1146,6 @@ Variable e : env.
 
 Theorem bump_is_noop : rw_eqs e NBump NEmpty.
 Proof. intros [|f] s; reflexivity. Qed.
-
-Lemma bindl_ext {A B} (l : list A) (f g : A -> res (list B)) :
-  (forall a, f a = g a) -> bindl l f = bindl l g.
-Proof. intros H. induction l as [|a l IH]; simpl; [reflexivity|]. rewrite H, IH. reflexivity. Qed.
-
-Lemma bindr_ext {A B} (r : res (list A)) (f g : A -> res (list B)) :
-  (forall a, f a = g a) -> bindr r f = bindr r g.
-Proof. intros H. destruct r; simpl; try reflexivity. apply bindl_ext, H. Qed.
-
-Lemma bindl_single {A B} (a : A) (k : A -> res (list B)) : bindl [a] k = k a.
-Proof. simpl. destruct (k a); simpl; [rewrite app_nil_r|..]; reflexivity. Qed.
 
 Lemma seq_sem_bump rec l1 l2 s :
   (forall s, rec NBump s = Ok [s]) -> seq_sem rec (l1 ++ NBump :: l2) s = seq_sem rec (l1 ++ l2) s.
@@ -1938,6 +2098,11 @@ Proof.
   - induction H as [|x l Hx _ IH]; constructor; [apply Hx, Hs | exact IH].
   - clear. induction l; simpl; auto.
 Qed.
+
+(* an expression conditional with both branches (tree.go:904): the condition and the "no" branch *)
+Lemma fails_in_expr_cond k o c o' cnd y n : fails_in k o c cnd -> fails_in k o c n ->
+  fails_in k o c (NExprCond o' cnd y (Some n)).
+Proof. intros Hc Hn s Hs. apply evals_expr_cond. exists []. split; [apply Hc, Hs | apply Hn, Hs]. Qed.
 
 (* stepping over a nullable loop with a disjoint test (tree.go:933-935, 954, 971-972), any flavour *)
 Lemma cont_fails_skip_charloop0 k o c k' l' o' c' n' rest : is_rtl o' = is_rtl o -> tests_disjoint e k c k' c' ->
